@@ -72,7 +72,9 @@ func funcIsNonnull(js JSWriter, args []ast.Node) {
 }
 
 func funcLength(js JSWriter, args []ast.Node) {
-	js.Write(args[0], ".length")
+	// (parenthesised: "5.length" does not parse, and a prefix operator in the
+	// argument would otherwise apply to the length.)
+	js.Write("(", args[0], ").length")
 }
 
 func funcRound(js JSWriter, args []ast.Node) {
@@ -106,7 +108,7 @@ func funcRandomInt(js JSWriter, args []ast.Node) {
 }
 
 func funcStrContains(js JSWriter, args []ast.Node) {
-	js.Write(args[0], ".indexOf(", args[1], ") != -1")
+	js.Write("(", args[0], ").indexOf(", args[1], ") != -1")
 }
 
 func funcHasData(js JSWriter, args []ast.Node) {
